@@ -644,6 +644,10 @@ func (d *partialDoc) remove(key string, options *ApplyOptions) error {
 // set should only be used to implement the "replace" operation, so "key" must
 // be an already existing index in "d".
 func (d *partialArray) set(key string, val *lazyNode, options *ApplyOptions) error {
+	if d == nil {
+		return ErrExpectedObject
+	}
+
 	idx, err := strconv.Atoi(key)
 	if err != nil {
 		return err
@@ -664,6 +668,10 @@ func (d *partialArray) set(key string, val *lazyNode, options *ApplyOptions) err
 }
 
 func (d *partialArray) add(key string, val *lazyNode, options *ApplyOptions) error {
+	if d == nil {
+		return ErrExpectedObject
+	}
+
 	if key == "-" {
 		d.nodes = append(d.nodes, val)
 		return nil
@@ -703,6 +711,10 @@ func (d *partialArray) add(key string, val *lazyNode, options *ApplyOptions) err
 }
 
 func (d *partialArray) get(key string, options *ApplyOptions) (*lazyNode, error) {
+	if d == nil {
+		return nil, ErrExpectedObject
+	}
+
 	if key == "" {
 		return d.self, nil
 	}
@@ -731,6 +743,10 @@ func (d *partialArray) get(key string, options *ApplyOptions) (*lazyNode, error)
 }
 
 func (d *partialArray) remove(key string, options *ApplyOptions) error {
+	if d == nil {
+		return ErrExpectedObject
+	}
+
 	idx, err := strconv.Atoi(key)
 	if err != nil {
 		return err
@@ -855,7 +871,7 @@ func ensurePathExists(pd *container, path string, options *ApplyOptions) error {
 			if arrIndex, err = strconv.Atoi(part); err == nil {
 				pa, ok := doc.(*partialArray)
 
-				if ok && arrIndex >= len(pa.nodes)+1 {
+				if ok && pa != nil && arrIndex >= len(pa.nodes)+1 {
 					// Pad the array with null values up to the required index.
 					for i := len(pa.nodes); i <= arrIndex-1; i++ {
 						doc.add(strconv.Itoa(i), newLazyNode(newRawMessage(rawJSONNull)), options)
@@ -1085,8 +1101,11 @@ func (p Patch) test(doc *container, op Operation, options *ApplyOptions) error {
 			self.doc = sv
 			self.which = eDoc
 		case *partialArray:
-			self.ary = sv
-			self.which = eAry
+			// a nil array is a root that was replaced by null
+			if sv != nil {
+				self.ary = sv
+				self.which = eAry
+			}
 		}
 
 		if self.equal(op.value()) {
